@@ -42,8 +42,8 @@ def incremental(pid, tier, replay):
 def ordering(pid, tier, replay):
     if replay:
         return engine.engine_replay(pid, replay)
-    fams = _fams([dict(fam="sched", K=8, CH=1), dict(fam="inc", K=3, CH=3), dict(fam="dyn", K=1, CH=3), dict(fam="pools", K=1, CH=1), dict(fam="restat", K=6, CH=3), dict(fam="twin", K=1, CH=1)],
-                 [dict(fam="sched", K=81, CH=1), dict(fam="inc", K=30, CH=10), dict(fam="dyn", K=1, CH=30), dict(fam="pools", K=8, CH=1), dict(fam="rand", K=100, CH=4)], tier)
+    fams = _fams([dict(fam="sched", K=8, CH=1), dict(fam="inc", K=3, CH=3), dict(fam="dyn", K=1, CH=3), dict(fam="pools", K=1, CH=1), dict(fam="restat", K=6, CH=3), dict(fam="twin", K=1, CH=1), dict(fam="dirs", K=1, CH=2)],
+                 [dict(fam="sched", K=81, CH=1), dict(fam="inc", K=30, CH=10), dict(fam="dyn", K=1, CH=30), dict(fam="pools", K=8, CH=1), dict(fam="rand", K=100, CH=4), dict(fam="dirs", K=6, CH=6)], tier)
     q = tier == "quick"
     design = dict(K=1 if q else 3, consts={"MaxInv": 1 if q else 2, "MaxEnv": 1, "MaxClock": 40, "Js": "{1, 2, 3}", "Ks": "{1, 0}", "Crashes": "FALSE", "Toks": "{99}", "Prio": "FALSE"},
                   invariants=["Ordered", "Limits"], timeout=60 if q else 2400, ngraphs=10 if q else None)
@@ -232,6 +232,8 @@ def shellquote(pid, tier, replay):
                 for st in s["stmts"]:
                     if not st["phony"]:
                         st["rsp"] = True
+                        if k % 4 == 2 and st["id"] % 2 == 0:
+                            st["rspver"] = 0      # a response file whose content evaluates to nothing
         files, execs, capped = engine.run_h1(bins["h1"], scen, wd, 8, sd)
         rspv = 0
         by_id = {s["id"]: s for s in scen}
@@ -256,7 +258,8 @@ def shellquote(pid, tier, replay):
             for st in s["stmts"]:
                 if not st["phony"]:
                     st["rsp"] = True
-            s["hist"] = [h0] + [{"op": "rspver", "s": f["s"]} for f in h0["fail"]] + s["hist"][1:]
+            # the content shrinks, or (every other scenario) becomes empty
+            s["hist"] = [h0] + [dict({"op": "rspver", "s": f["s"]}, **({"to": 0} if (len(s["stmts"]) + f["s"]) % 2 else {})) for f in h0["fail"]] + s["hist"][1:]
             return s
         scen2 = engine.load_scenarios([dict(fam="fail", K=2 if tier == "quick" else 10, CH=2 if tier == "quick" else 6, mut=rsp_history)], sd)
         import random
